@@ -31,11 +31,33 @@ def showVa : VaOut → String
   | .respPort p => s!"port:{p}" | .respError => "error" | .hStart i => s!"hstart:{i}"
   | .hStop a => s!"hstop:{if a then 1 else 0}" | .hAudio => "haudio" | .hAnnounce => "hann"
 
+def parseOKind : String → Option OKind
+  | "log" => some .log | "svc" => some .svc | "ha" => some .ha | "adv" => some .adv | "raw" => some .raw | "free" => some .free
+  | _ => none
+def showOKind : OKind → String
+  | .log => "log" | .svc => "svc" | .ha => "ha" | .adv => "adv" | .raw => "raw" | .free => "free"
+
+def parseOEv (w : String) : Option OEv :=
+  match w.splitOn ":" with
+  | ["m", k, id, once] => match parseOKind k, id.toNat? with
+    | some k, some i => some (.msg k i (once == "1"))
+    | _, _ => none
+  | ["u", k] => (parseOKind k).map .unsub
+  | _ => none
+
+def showOOut : OOut → String
+  | .handler k i => s!"{showOKind k}:{i}" | .request i => s!"hareq:{i}"
+
 def sbStep (ws : List String) : String :=
   match ws with
   | "sb.run" :: ms => match ms.mapM parseMsg with
     | some ms => " ".intercalate ((run [] ms).map showOut)
     | none => "bad-op"
+  | "sb.other" :: req :: kinds :: es =>
+    -- kinds: comma-separated subscribed kinds; req: the one-shot home-assistant handler was given
+    match (kinds.splitOn ",").mapM parseOKind, es.mapM parseOEv with
+    | some ks, some es => " ".intercalate ((oRun { active := ks, hasRequest := req == "1" } es).map showOOut)
+    | _, _ => "bad-op"
   | "va.run" :: aud :: ann :: es => match es.mapM parseVa with
     | some es => " ".intercalate ((vaRun { audioSub := aud == "1", announceSub := ann == "1" } es).out.map showVa)
     | none => "bad-op"
